@@ -204,6 +204,37 @@ HELPER_SEPARATE = (
 )
 
 
+INIT_ACTIONS = {
+    ("isVerbose", "output_->verbose(TestOutput::level_verbose)"): "verbose",
+    ("isVeryVerbose", "output_->verbose(TestOutput::level_veryVerbose)"): "veryVerbose",
+    ("isColor", "output_->color()"): "color",
+    ("runTestsInSeperateProcess", "registry_->setRunTestsInSeperateProcess()"): "separateProcess",
+    ("isRunIgnored", "registry_->setRunIgnored()"): "runIgnored",
+    ("isCrashingOnFail", "UtestShell::setCrashOnFail()"): "crashOnFail",
+}
+INIT_HEAD = "registry_->setGroupFilters(arguments_->getGroupFilters());registry_->setNameFilters(arguments_->getNameFilters());"
+INIT_TAIL = "UtestShell::setRethrowExceptions(arguments_->isRethrowingExceptions());"
+
+
+def init_statements(cli):
+    """CommandLineTestRunner::initializeTestRun as a list of (switch, spelled `else if`)"""
+    norm, _ = normalise(function_body(cli, r"void\s+CommandLineTestRunner::initializeTestRun\s*\(\s*\)\s*\{"))
+    if not (norm.startswith(INIT_HEAD) and norm.endswith(INIT_TAIL)):
+        raise TranslateError("CommandLineTestRunner::initializeTestRun changed shape: " + norm)
+    mid = norm[len(INIT_HEAD):len(norm) - len(INIT_TAIL)]
+    out, pos = [], 0
+    pat = re.compile(r"(else)?if\(arguments_->(\w+)\(\)\)([^;{}]+);")
+    while pos < len(mid):
+        m = pat.match(mid, pos)
+        if not m or (m.group(2), m.group(3)) not in INIT_ACTIONS:
+            raise TranslateError("CommandLineTestRunner::initializeTestRun: statement not understood near: " + mid[pos:pos + 80])
+        out.append((INIT_ACTIONS[(m.group(2), m.group(3))], bool(m.group(1))))
+        pos = m.end()
+    if [sw for sw, _ in out].count("separateProcess") != 1:
+        raise TranslateError("CommandLineTestRunner::initializeTestRun no longer forwards -p to the registry exactly once: " + norm)
+    return out
+
+
 def expect_body(src, sig, want, what):
     got, _ = normalise(function_body(src, sig))
     if got != want:
@@ -262,9 +293,7 @@ def extract():
     expect_body(reg, r"void\s+TestRegistry::setRunTestsInSeperateProcess\s*\(\s*\)\s*\{", "runInSeperateProcess_=true;",
                 "TestRegistry::setRunTestsInSeperateProcess")
     cli = strip_comments(read("src/CppUTest/CommandLineTestRunner.cpp"))
-    cli_norm, _ = normalise(function_body(cli, r"void\s+CommandLineTestRunner::initializeTestRun\s*\(\s*\)\s*\{"))
-    if "if(arguments_->runTestsInSeperateProcess())registry_->setRunTestsInSeperateProcess();" not in cli_norm:
-        raise TranslateError("CommandLineTestRunner::initializeTestRun no longer forwards -p to the registry: " + cli_norm)
+    init_stmts = init_statements(cli)
     cla = strip_comments(read("src/CppUTest/CommandLineArguments.cpp"))
     cla_norm, cla_lits = normalise(cla)
     mp = re.search(r'elseif\(argument=="§(\d+)"\)runTestsAsSeperateProcess_=true;', cla_norm)
@@ -295,6 +324,10 @@ def extract():
     text += "def msgNoFork : String := %s\n" % lean_str(msg_nofork)
     text += "/-- where `TestRegistry::runAllTests` sets the per-test separate-process flag -/\n"
     text += "def sepFlagPlacement : SepFlagPlacement := .%s\n" % placement
+    text += "/-- the `if (arguments_->…) …;` statements of `CommandLineTestRunner::initializeTestRun`, in source order -/\n"
+    text += "def initStatements : List InitStmt := [\n"
+    text += ",\n".join("  { switch := .%s, isElse := %s }" % (sw, "true" if e else "false") for sw, e in init_stmts)
+    text += "]\n"
     text += "end Gen.SepProcC\n"
     return text
 
